@@ -1,6 +1,8 @@
 """C09 - tracking never drops, duplicates or double-assigns detections, never crashes."""
 
 import copy
+
+import numpy as np
 import hashlib
 import random
 
@@ -112,7 +114,11 @@ def gen_plan(rng, index, tier):
         if "low_score" in enabled:
             for d in fr:
                 if rng.random() < 0.2:
-                    d["score"] = round(rng.choice([0.0, thr, max(thr - 0.1, 0.0), thr + 0.001]), 3)
+                    # boundary scores: exactly the threshold (no promise), and the two smallest excesses a real pipeline produces -
+                    # the next double above the threshold and the threshold rounded to float32 (network scores are float32)
+                    f32 = float(np.float32(thr))
+                    just_above = f32 if f32 > thr else float(np.nextafter(np.float32(thr), np.float32(1.0)))
+                    d["score"] = rng.choice([0.0, thr, round(max(thr - 0.1, 0.0), 3), round(thr + 0.001, 3), float(np.nextafter(thr, 1.0)), just_above])
                     fire("low_score")
         if "missing_keypoints" in enabled and n_nodes > 2:
             for d in fr:
